@@ -201,62 +201,137 @@ func c13Recover(c *Ctx) {
 	for _, t := range [][2]string{{"db", "(*DataReader).FindLocation"}, {"db", "(*cdbdriver).ForEach"}, {"dnsdata/rdb", "(*RDB).ForEach"}} {
 		fn := c.Func(t[0], t[1])
 		c.Examined(fn)
-		// named error result
-		res := fn.Signature.Results()
-		errName := ""
-		for i := 0; i < res.Len(); i++ {
-			if res.At(i).Type().String() == "error" {
-				errName = res.At(i).Name()
+		ok := c13DefersRecover(c, fn) || c13WorkUnderGuard(c, fn)
+		c.Check(rule, fnName(fn), ok, fn.Pos(), "a corrupt row must become an error, not a crashed server")
+	}
+}
+
+// c13DefersRecover: fn defers, in its entry block, a function that calls recover() and stores into fn's named error result.
+func c13DefersRecover(c *Ctx, fn *ssa.Function) bool {
+	// named error result
+	res := fn.Signature.Results()
+	errName := ""
+	for i := 0; i < res.Len(); i++ {
+		if res.At(i).Type().String() == "error" {
+			errName = res.At(i).Name()
+		}
+	}
+	ok := false
+	for _, ci := range callInstrs(fn) {
+		d, isDefer := ci.(*ssa.Defer)
+		if !isDefer {
+			continue
+		}
+		var cl *ssa.Function
+		viaPointer := false
+		if mc, isMC := d.Call.Value.(*ssa.MakeClosure); isMC {
+			cl = mc.Fn.(*ssa.Function)
+		} else if sf := d.Call.StaticCallee(); sf != nil && sf.Blocks != nil && c.isOurs(sf.Pkg.Pkg) {
+			// a named function deferred directly (recover works in the deferred function itself), handed the
+			// address of the error result: defer catchPanic(&err)
+			for _, a := range d.Call.Args {
+				if errName != "" && varNameOfAddr(a) == errName {
+					cl, viaPointer = sf, true
+				}
 			}
 		}
-		ok := false
-		for _, ci := range callInstrs(fn) {
-			d, isDefer := ci.(*ssa.Defer)
-			if !isDefer {
-				continue
+		if cl == nil {
+			continue
+		}
+		rec, st := false, false
+		for _, x := range callInstrs(cl) {
+			if b, isB := x.Common().Value.(*ssa.Builtin); isB && b.Name() == "recover" {
+				rec = true
 			}
-			var cl *ssa.Function
-			viaPointer := false
-			if mc, isMC := d.Call.Value.(*ssa.MakeClosure); isMC {
-				cl = mc.Fn.(*ssa.Function)
-			} else if sf := d.Call.StaticCallee(); sf != nil && sf.Blocks != nil && c.isOurs(sf.Pkg.Pkg) {
-				// a named function deferred directly (recover works in the deferred function itself), handed the
-				// address of the error result: defer catchPanic(&err)
-				for _, a := range d.Call.Args {
-					if errName != "" && varNameOfAddr(a) == errName {
-						cl, viaPointer = sf, true
-					}
+		}
+		for _, b := range cl.Blocks {
+			for _, in := range b.Instrs {
+				if s, isS := in.(*ssa.Store); isS && errName != "" && varNameOfAddr(s.Addr) == errName {
+					st = true
 				}
-			}
-			if cl == nil {
-				continue
-			}
-			rec, st := false, false
-			for _, x := range callInstrs(cl) {
-				if b, isB := x.Common().Value.(*ssa.Builtin); isB && b.Name() == "recover" {
-					rec = true
-				}
-			}
-			for _, b := range cl.Blocks {
-				for _, in := range b.Instrs {
-					if s, isS := in.(*ssa.Store); isS && errName != "" && varNameOfAddr(s.Addr) == errName {
+				if s, isS := in.(*ssa.Store); isS && viaPointer {
+					// store through the pointer parameter that carries the address of the error result
+					if _, isParam := s.Addr.(*ssa.Parameter); isParam && s.Val.Type().String() == "error" {
 						st = true
 					}
-					if s, isS := in.(*ssa.Store); isS && viaPointer {
-						// store through the pointer parameter that carries the address of the error result
-						if _, isParam := s.Addr.(*ssa.Parameter); isParam && s.Val.Type().String() == "error" {
-							st = true
-						}
-					}
 				}
 			}
-			// the defer must be registered before anything that can panic: in the entry block
-			if rec && st && d.Block() == fn.Blocks[0] {
-				ok = true
+		}
+		// the defer must be registered before anything that can panic: in the entry block
+		if rec && st && d.Block() == fn.Blocks[0] {
+			ok = true
+		}
+	}
+	return ok && errName != ""
+}
+
+// c13WorkUnderGuard: the other shape of a barrier. fn hands its work, as a function literal, to a helper of the module
+// that defers the recover itself (c13DefersRecover) and calls the literal; fn's own body calls nothing else of the
+// module, and the helper's error reaches fn's error result.
+func c13WorkUnderGuard(c *Ctx, fn *ssa.Function) bool {
+	guards := 0
+	for _, ci := range callInstrs(fn) {
+		cc := ci.Common()
+		if cc.IsInvoke() {
+			if cc.Method.Pkg() != nil && c.isOurs(cc.Method.Pkg()) {
+				return false // work outside the guard
+			}
+			continue
+		}
+		sf := cc.StaticCallee()
+		if sf == nil {
+			if _, isB := cc.Value.(*ssa.Builtin); isB {
+				continue
+			}
+			return false // a dynamic call in the barrier's own body
+		}
+		if sf.Pkg == nil || !c.isOurs(sf.Pkg.Pkg) {
+			continue
+		}
+		call, isCall := ci.(*ssa.Call)
+		if !isCall || len(sf.Blocks) == 0 || !c13DefersRecover(c, sf) {
+			return false
+		}
+		// the helper calls its function parameter, and the work is a literal given at this call
+		var fp *ssa.Parameter
+		for _, p := range sf.Params {
+			if _, isSig := p.Type().Underlying().(*types.Signature); isSig {
+				fp = p
 			}
 		}
-		c.Check(rule, fnName(fn), ok && errName != "", fn.Pos(), "a corrupt row must become an error, not a crashed server")
+		calls := false
+		if fp != nil {
+			for _, x := range callInstrs(sf) {
+				if _, isC := x.(*ssa.Call); isC && x.Common().Value == fp {
+					calls = true
+				}
+			}
+		}
+		lit := false
+		for _, a := range cc.Args {
+			if _, isMC := a.(*ssa.MakeClosure); isMC {
+				lit = true
+			}
+		}
+		if !calls || !lit {
+			return false
+		}
+		c.Examined(sf)
+		// the recovered error reaches the error result of fn
+		reaches := false
+		for _, ret := range returnsOf(fn) {
+			for _, rv := range ret.Results {
+				if rv.Type().String() == "error" && backSlice(rv, nil)[call] {
+					reaches = true
+				}
+			}
+		}
+		if !reaches {
+			return false
+		}
+		guards++
 	}
+	return guards > 0
 }
 
 // c13WritePath: SizeAndDo → Scrub → WriteMsg on the same message; who may write.
